@@ -13,7 +13,7 @@ func init() {
 	register(&Property{
 		ID:    "C10",
 		Title: "Writes need a fresh token issued to the same IP",
-		Decided: "C10.1 in the announce_peer and put handlers every side effect (peer store, announce hook, item store) and every reply/error is dominated by validToken(args.token, source)=true; after validToken=false the handler does nothing but count; " +
+		Decided: "C10.1 in the announce_peer and put handlers every side effect (peer store, announce hook, item store) and every reply/error is dominated by validToken(args.token, source)=true; after validToken=false the handler does nothing but count; Server.validToken answers true only under tokenServer.ValidToken(token, addr)=true for its own arguments in the same call (no remembered verdicts); " +
 			"C10.2 the token hashes exactly {source IP (16-byte form), interval index, secret} — not the port or the address string — and validation recomputes it for the same address over maxIntervalDelta+1 steps of one interval; " +
 			"C10.3 the window constants give ≥10 min and ≤15 min lifetimes; the secret is a buffer of constant length ≥ 8 filled by crypto/rand and, like the constants, written only at construction (NewServer or a constructor only it calls); C10.4 get and get_peers (with a peer store) replies carry a token created for the query source.",
 		NotDecided: "SHA-1 unforgeability; the relation between wall-clock time and the rotation grid beyond the constants.",
@@ -155,6 +155,26 @@ func c10r1(w *World, rr *RuleRun) {
 	}
 	for _, m := range []string{"announce_peer", "put"} {
 		rr.Oblige(shortFuncName(h.fn), m+" returns silently on an invalid token", w.P.Pos(h.fn.Pos()), seen[m], fmt.Sprintf("exits with validToken=false seen for: %v", seen))
+	}
+	// the handlers' predicate is the token server's verdict on the same token and source, computed in
+	// this call: it answers true only under tokenServer.ValidToken(token, addr) = true (no remembered
+	// verdicts, no second way to say yes)
+	vt := w.P.Func("(*Server).validToken")
+	vtok := w.P.Func("(*tokenServer).ValidToken")
+	tokP, addrP := w.TS.Of(vt.Params[1]), w.TS.Of(vt.Params[2])
+	tsum := w.FE.Summary(vt, 0, "true", 0)
+	if len(tsum) == 0 {
+		rr.Oblige(shortFuncName(vt), "validToken answers true only under tokenServer.ValidToken(token, addr) = true for its own arguments", w.P.Pos(vt.Pos()), false, "no true-class summary")
+	}
+	for i, alt := range tsum {
+		ok := alt.Has("b", true, func(t *Term) bool {
+			return isCall(t, vtok) && len(t.Args) == 3 && termEq(t.Args[1], tokP) && termEq(t.Args[2], addrP)
+		})
+		c := "validToken answers true only under tokenServer.ValidToken(token, addr) = true for its own arguments"
+		if i > 0 {
+			c += fmt.Sprintf(" (case %d)", i+1)
+		}
+		rr.Oblige(shortFuncName(vt), c, w.P.Pos(vt.Pos()), ok, "{"+trunc(strings.Join(alt.Facts(), " ∧ "), 240)+"}")
 	}
 }
 
